@@ -20,7 +20,7 @@ TECHNIQUE = ('deterministic simulation: seeded programs + rows, real-process '
              'execution, reference row model; fault configuration = one '
              'injected statement failure then retry')
 PLAN = {
-    'quick': {'count': 450, 'max_wall': 170, 'shrink_budget': 30,
+    'quick': {'count': 900, 'max_wall': 170, 'shrink_budget': 30,
               'shrink_wall': 120},
     'thorough': {'count': 8000, 'max_wall': 1500, 'shrink_budget': 80,
                  'shrink_wall': 400},
